@@ -485,6 +485,74 @@ func (r *Registry) ReservePDInPool(poolKey string, prefix *net.IPNet, sessionID 
 	return nil
 }
 
+// ReleaseIPInPool releases ip from the allocator ReserveIPInPool reserves it in:
+// the named pool when it exists, otherwise the first pool containing it. Other
+// pools (for example an overlapping range of another VRF) are left alone.
+func (r *Registry) ReleaseIPInPool(poolKey string, ip net.IP) {
+	if r == nil {
+		return
+	}
+
+	r.mu.RLock()
+	defer r.mu.RUnlock()
+
+	if alloc, ok := r.allocators[poolKey]; ok {
+		alloc.Release(ip)
+		return
+	}
+
+	for _, alloc := range r.allocators {
+		if alloc.Contains(ip) {
+			alloc.Release(ip)
+			return
+		}
+	}
+}
+
+// ReleaseIANAInPool is the counterpart of ReserveIANAInPool.
+func (r *Registry) ReleaseIANAInPool(poolKey string, ip net.IP) {
+	if r == nil {
+		return
+	}
+
+	r.mu.RLock()
+	defer r.mu.RUnlock()
+
+	if alloc, ok := r.ianaAllocators[poolKey]; ok {
+		alloc.Release(ip)
+		return
+	}
+
+	for _, alloc := range r.ianaAllocators {
+		if alloc.Contains(ip) {
+			alloc.Release(ip)
+			return
+		}
+	}
+}
+
+// ReleasePDInPool is the counterpart of ReservePDInPool.
+func (r *Registry) ReleasePDInPool(poolKey string, prefix *net.IPNet) {
+	if r == nil {
+		return
+	}
+
+	r.mu.RLock()
+	defer r.mu.RUnlock()
+
+	if alloc, ok := r.pdAllocators[poolKey]; ok {
+		alloc.Release(prefix)
+		return
+	}
+
+	for _, alloc := range r.pdAllocators {
+		if alloc.Contains(prefix) {
+			alloc.Release(prefix)
+			return
+		}
+	}
+}
+
 func (r *Registry) ReleaseIANAByIP(ip net.IP) {
 	if r == nil {
 		return
